@@ -164,6 +164,7 @@ fn main() {
             duplicate_key_family(&mut rep, Mode::C02, tier);
             pump_family(&mut rep, Mode::C02, tier);
             history::run(&mut rep, Mode::C02, tier);
+            history::cross_thread(&mut rep);
             history::concurrent(&mut rep);
             history::reentrancy(&mut rep);
             t_corpus(&mut rep, Mode::C02, Tier::Quick);
@@ -173,6 +174,8 @@ fn main() {
         "C05" => {
             let mut rep = Report::new(&args, "model_checking", "E-TREE leaves vs. R-dec's expected code map");
             trees_for(&mut rep, Mode::C05, tier, &["T-struct", "T-mixed", "T-str", "T-tok"], 1.2, strict, false);
+            // documents that only a lenient record accepts have a code map as well
+            trees_for(&mut rep, Mode::C05, tier, &["T-sur"], 0.5, (true, true), false);
             spill_family(&mut rep, Mode::C05);
             duplicate_key_family(&mut rep, Mode::C05, tier);
             pump_family(&mut rep, Mode::C05, tier);
